@@ -63,6 +63,12 @@ CONTAINERS = [
                     'if b.co64 is Some { lemma_co64_prefix_len(b.co64->Some_0, b.co64->Some_0.entries@.len() as int); }'],
          pieces=[('hdr_bytes(stbl_len(b) as u64, 0x7374626c)', 8), ('stsd_bytes(b.stsd)', 'stsd_len(b.stsd)'), ('stts_bytes(b.stts)', 'stts_len(b.stts)'), opt('ctts', 'ctts'), opt('stss', 'stss'),
                  ('stsc_bytes(b.stsc)', 'stsc_len(b.stsc)'), ('stsz_bytes(b.stsz)', 'stsz_len(b.stsz)'), opt('stco', 'stco'), opt('co64', 'co64')]),
+    dict(name='traf', ty='TrafBox', req='traf_wire(b)', doc='TrackFragmentBox(\'traf\'): tfhd tfdt? trun?',
+         lemma_pre=['lemma_tfhd_pre_len(b.tfhd);', 'if b.tfdt is Some { lemma_tfdt_pre_len(b.tfdt->Some_0); }', 'if b.trun is Some { lemma_trun_bytes_len(b.trun->Some_0); }'],
+         pieces=[('hdr_bytes(traf_len(b) as u64, 0x74726166)', 8), ('tfhd_bytes(b.tfhd)', 'tfhd_len(b.tfhd)'), opt('tfdt', 'tfdt'), opt('trun', 'trun')]),
+    dict(name='mvex', ty='MvexBox', req='mvex_wire(b) && len_fits(mvex_len(b))', doc='MovieExtendsBox(\'mvex\'): mehd? trex',
+         lemma_pre=['if b.mehd is Some { lemma_mehd_pre_len(b.mehd->Some_0); }', 'lemma_trex_pre_len(b.trex);'],
+         pieces=[('hdr_bytes(mvex_len(b) as u64, 0x6d766578)', 8), opt('mehd', 'mehd'), ('trex_bytes(b.trex)', 'trex_len(b.trex)')]),
     dict(name='minf', ty='MinfBox', req='minf_wire(b)', cond='minf_exact(b)', doc='MediaInformationBox(\'minf\'): vmhd? smhd? dinf stbl',
          lemma_pre=['if b.vmhd is Some { lemma_vmhd_pre_len(b.vmhd->Some_0); }', 'if b.smhd is Some { lemma_smhd_pre_len(b.smhd->Some_0); }', 'lemma_dinf_bytes_len(b.dinf);', 'lemma_stbl_pre(b.stbl);'],
          pieces=[('hdr_bytes(minf_len(b) as u64, 0x6d696e66)', 8), opt('vmhd', 'vmhd'), opt('smhd', 'smhd'), ('dinf_bytes(b.dinf)', 'dinf_len(b.dinf)'), ('stbl_bytes(b.stbl)', 'stbl_len(b.stbl)')]),
